@@ -20,7 +20,7 @@ from vt.main import EnumResult
 from vt.refmodels import argv as ref
 
 ID = 'C13'
-KINDS = ['enum']
+KINDS = ['enum']                # histories half: KINDS = ['explorer', 'enum'] (vt.main.run_check runs both)
 KIND = 'enum'
 LEVEL = 'exploration'
 BUDGET = {'quick': 60, 'thorough': 600}
@@ -310,6 +310,7 @@ def _enum_seams(fake_popen=True):
     lg = logging.getLogger('circus')
     nh = logging.NullHandler()
     lg.addHandler(nh)
+    saved_propagate, lg.propagate = lg.propagate, False     # circus warns on every failed spawn attempt
     os.environ.clear()
     os.environ.update(ENUM_OS_ENVIRON)
     if fake_popen:
@@ -321,6 +322,7 @@ def _enum_seams(fake_popen=True):
         os.environ.clear()
         os.environ.update(saved_env)
         lg.removeHandler(nh)
+        lg.propagate = saved_propagate
 
 
 # -- one case: run the real code, judge against the reference ---------------------------------------------
